@@ -447,7 +447,7 @@ func (e *Engine) step(st *State, fr *Frame, instr ssa.Instruction) bool {
 		obj := &MapObj{Typ: mt}
 		if ks, vs, absent, ok := mapSorts(mt); ok {
 			obj.KeySort, obj.ValSort, obj.Absent = ks, vs, absent
-			obj.Arr = mkT(fmt.Sprintf("((as const (Array %s %s)) %s)", ks.Name, vs.Name, absent.S), &Sort{fmt.Sprintf("(Array %s %s)", ks.Name, vs.Name)})
+			obj.Arr = mkT(fmt.Sprintf("((as const (Array %s %s)) %s)", ks.Name, vs.Name, absent.S), canonSort(fmt.Sprintf("(Array %s %s)", ks.Name, vs.Name)))
 		} else {
 			obj.Struct = true
 			obj.Entries = map[string]Value{}
@@ -634,6 +634,19 @@ func (e *Engine) binop(st *State, op token.Token, x, y Value, xt, rt types.Type,
 			case token.REM:
 				r = App(SInt, "mod", a, b)
 			case token.AND:
+				if m, ok := b.intConst(); ok && m.Sign() > 0 && m.BitLen() <= 32 {
+					if _, isc := a.intConst(); !isc {
+						// x & mask = sum of the selected bits (x >= 0 is a stated precondition where it matters)
+						r = IntLit(0)
+						for bit := 0; bit < m.BitLen(); bit++ {
+							if m.Bit(bit) == 1 {
+								p2 := pow2(bit)
+								r = Add(r, Mul(App(SInt, "mod", App(SInt, "div", a, p2), IntLit(2)), p2))
+							}
+						}
+						break
+					}
+				}
 				if m, ok := b.intConst(); ok {
 					// x & (2^k-1)  ==  x mod 2^k
 					mm := new(big.Int).Add(m, big.NewInt(1))
@@ -723,10 +736,20 @@ func (e *Engine) binop(st *State, op token.Token, x, y Value, xt, rt types.Type,
 			switch op {
 			case token.ADD:
 				return sym(e.strConcat(a, b))
-			case token.EQL:
-				return sym(Eq(a, b))
-			case token.NEQ:
-				return sym(Not(Eq(a, b)))
+			case token.EQL, token.NEQ:
+				eq := Eq(a, b)
+				// comparison with the empty string is a statement about the length
+				if la, ok := e.reverseStr(a.S); ok && la == "" && !eq.IsConst() {
+					st.fact(Ge(App(SInt, "s.len", b), IntLit(0)))
+					eq = Eq(App(SInt, "s.len", b), IntLit(0))
+				} else if lb, ok := e.reverseStr(b.S); ok && lb == "" && !eq.IsConst() {
+					st.fact(Ge(App(SInt, "s.len", a), IntLit(0)))
+					eq = Eq(App(SInt, "s.len", a), IntLit(0))
+				}
+				if op == token.NEQ {
+					eq = Not(eq)
+				}
+				return sym(eq)
 			}
 		case SBytes:
 			// only comparisons against nil are legal in Go
@@ -792,7 +815,7 @@ func (e *Engine) valueEq(st *State, x, y Value) Term {
 		case VAbs:
 			return BoolLit(a.Kind == b.Kind && a.ID == b.ID)
 		case VNil:
-			return TFalse
+			return e.isNilTerm(st, a)
 		}
 	case VStruct:
 		if b, ok := y.(VStruct); ok && len(a.F) == len(b.F) {
@@ -837,7 +860,17 @@ func (e *Engine) isNilTerm(st *State, v Value) Term {
 			return Eq(a.T, mkT("JNULL", SJson))
 		}
 		return TFalse
-	case VPtr, VIface, VFunc, VAbs, VSlice:
+	case VAbs:
+		if to, ok := a.Data.(*TimerObj); ok {
+			return to.NilT
+		}
+		if a.Kind == "list" {
+			if l, ok := st.heap[a.ID].(*ListObj); ok {
+				return l.NilT
+			}
+		}
+		return TFalse
+	case VPtr, VIface, VFunc, VSlice:
 		return TFalse
 	case VMap:
 		if m, ok := st.heap[a.Cell].(*MapObj); ok {
